@@ -266,6 +266,66 @@ def run_witness(binpath, w):
             return {"cmd": "run <%d programs>" % len(items), "exit": 0, "stdout": "", "stderr": "",
                     "reproduced": bool(bad_items), "why": "; ".join(bad_items[:6])[:1500], "n_inputs": len(items),
                     "failing_inputs": [items[i]["src"] for i, r in enumerate(res) if r][:6]}
+        elif kind == "builtin-args":
+            # every built-in declared in the prelude files named by w["preludes"] (found by
+            # `__BUILT_IN_IMPLEMENTATION` on each run) is called with a wrongly typed value in each argument
+            # position in turn, with one argument too few and with one too many: none of these may panic
+            import re as _re
+            from concurrent.futures import ThreadPoolExecutor
+            SAMPLE = [("String", '"abc"'), ("Int", "1"), ("Float", "1.5"), ("Bool", "True"), ("List", "[]"),
+                      ("Dict", "Dict[]"), ("Path", 'Path{ p: "/nonexistent_zz" }')]
+
+            def sample(ty, wrong):
+                ty = ty.strip()
+                if wrong:
+                    return "1" if ty.startswith("Bool") else ("True" if not ty.startswith("Int") else '"x"')
+                for k, v in SAMPLE:
+                    if ty.startswith(k):
+                        return v
+                return "1"
+            progs = []
+            for rel in w["preludes"]:
+                try:
+                    text = open(os.path.join(REPO, rel), encoding="utf-8").read()
+                except OSError:
+                    continue
+                for m in _re.finditer(r"(method|fun)\s+(\w+)(?:<[^>]*>)?\(([^)]*)\)[^{]*\{\s*__BUILT_IN_IMPLEMENTATION", text):
+                    if m.group(2) in w.get("skip", []):
+                        continue
+                    params = [q.split(":", 1)[1] for q in m.group(3).split(",") if ":" in q]
+                    is_m = m.group(1) == "method"
+
+                    def call(vals, name=m.group(2), is_m=is_m):
+                        if is_m:
+                            return "%s.%s(%s)" % (vals[0], name, ", ".join(vals[1:]))
+                        return "%s(%s)" % (name, ", ".join(vals))
+                    good = [sample(t, False) for t in params]
+                    first = 1 if is_m else 0
+                    for k in range(first, len(params)):
+                        for wrongv in (sample(params[k], True), "None", '"x"'):
+                            progs.append(call(good[:k] + [wrongv] + good[k + 1:]))
+                    if len(params) > first:
+                        progs.append(call(good[:-1]))
+                    progs.append(call(good + ["1"]))
+                    progs.append(call(good))
+            progs = sorted(set(progs))
+
+            def one(src_):
+                try:
+                    p = subprocess.run([binpath, "run", "-c", src_], capture_output=True, text=True, timeout=30,
+                                       cwd=tmpdir, stdin=subprocess.DEVNULL)
+                except subprocess.TimeoutExpired:
+                    return "timeout"
+                if p.returncode == 101 or "panicked at" in p.stdout + p.stderr:
+                    return "panicked: " + (p.stderr.strip().splitlines() or [""])[0][:160]
+                return None
+            with ThreadPoolExecutor(max_workers=8) as ex:
+                res = list(ex.map(one, progs))
+            bad_items = ["%s: %s" % (progs[i], r) for i, r in enumerate(res) if r]
+            return {"cmd": "run -c <%d calls of built-ins>" % len(progs), "exit": 0, "stdout": "", "stderr": "",
+                    "reproduced": bool(bad_items) or len(progs) < w.get("min_inputs", 1),
+                    "why": ("; ".join(bad_items[:6]) if bad_items else "only %d calls generated" % len(progs))[:1500],
+                    "n_inputs": len(progs), "failing_inputs": [progs[i] for i, r in enumerate(res) if r][:6]}
         elif kind == "fix-corpus":
             # C22 bounded stand-in: run each program, apply `check --fix` until nothing changes,
             # require that the result still parses (no new error diagnostics), prints the same output
